@@ -66,39 +66,58 @@ Proof.
 Qed.
 End Generic.
 
-(* Re-parsed copy (uses the C06 codec theorems).  [b] is exactly one accepted pickle with parse [p];
-   it is loaded from inside ANY larger stream (anything before, anything after).  Then dumps() of
-   that parse is [b] itself, and Pickled.load(dumps()) has the same opcode classes and encodings --
-   so, for EVERY machine over those (every interpreter that does not look at stream positions),
-   the re-parsed copy gives the same answers whatever either object was asked before.
-   PARTIAL in one respect: the hypothesis [complete b p] says the pickle's own bytes are accepted
-   on their own; for a pickle only ever seen embedded in a longer stream that is the converse of
-   C06_prefix_determinism (truncation invariance of the token loop), which is not proved. *)
-Theorem C13_reparse_same_partial :
+(* Re-parsed copy (uses the C06 codec theorems and the truncation invariance of the token loop,
+   proofs/CodecTruncProofs.v).  For EVERY successful Pickled.load -- a bytes object, a seekable stream at
+   any offset with anything before and after the pickle, a non-seekable stream -- with parse [r]:
+   dumps() of the parse succeeds with bytes [d]; Pickled.load(d) succeeds, consumes exactly [d],
+   re-serialises to [d] again (the `dumps` question itself), and has the same opcode classes and
+   encodings ([strip]: everything but the stream position).  Hence, for EVERY machine over those
+   (every interpreter / analysis that does not look at stream positions), every question [q] gets the
+   same answer from the re-parsed copy and from the original, whatever either was asked before.
+   No hypothesis beyond "the load succeeded". *)
+Theorem C13_reparse_same :
   forall (A P R VA VP VF : Type)
          (interpret : list (Codec.oprow * option (list byte)) -> res A) (props_of : A -> res P)
          (ast_view : VA -> A -> R) (props_view : VP -> P -> R)
          (safety_view : list (Codec.oprow * option (list byte)) -> P -> R)
          (fresh_view : VF -> list (Codec.oprow * option (list byte)) -> R) (err_ans : err -> R),
-  forall b p, CodecProofs.complete b p -> forall pre rest,
-  exists ops e,
-    Codec.load_stream (pre ++ b ++ rest) (List.length pre) = Codec.LOk (ops, e) /\
-    Codec.dumps ops = Ok b /\
-    Codec.load_stream b 0 = Codec.LOk (p, List.length b) /\
-    map strip p = map strip ops /\
+  forall k bs off r, Codec.load_model k bs off = Codec.LOk r ->
+  exists d r',
+    Codec.dumps (Codec.l_ops r) = Ok d /\
+    Codec.load_model Codec.KBytes d 0 = Codec.LOk r' /\
+    Codec.l_end r' = List.length d /\
+    map strip (Codec.l_ops r') = map strip (Codec.l_ops r) /\
+    Codec.dumps (Codec.l_ops r') = Ok d /\
     forall qs1 qs2 q,
       fst (run_query interpret props_of ast_view props_view safety_view fresh_view err_ans q
              (run_queries interpret props_of ast_view props_view safety_view fresh_view err_ans qs1
-                (fresh (map strip p)))) =
+                (fresh (map strip (Codec.l_ops r'))))) =
       fst (run_query interpret props_of ast_view props_view safety_view fresh_view err_ans q
              (run_queries interpret props_of ast_view props_view safety_view fresh_view err_ans qs2
-                (fresh (map strip ops)))).
+                (fresh (map strip (Codec.l_ops r))))).
 Proof.
   intros A P R VA VP VF interpret props_of ast_view props_view safety_view fresh_view err_ans
-         b p H pre rest.
-  destruct (reparse_same b p H pre rest) as (ops & e & L1 & D & L2 & S).
-  exists ops, e. repeat (split; [assumption|]). rewrite S.
+         k bs off r H.
+  destruct (reparse_strip k bs off r H) as (d & r' & D & L & E & S & D').
+  exists d, r'. repeat (split; [assumption|]). rewrite S.
   apply queries_order_irrelevant. apply fresh_ok.
+Qed.
+
+(* non-vacuity: pickle.dumps([1, 'a'], 2) loaded from offset 2 of a seekable stream that has another
+   pickle before it and a truncated opcode after it; and the same through a non-seekable reader *)
+Definition ex_b : list byte :=
+  [x80; x02; x5d; x71; x00; x28; x4b; x01; x58; x01; x00; x00; x00; x61; x65; x2e].
+Example C13_nonvacuous_reparse :
+  exists r r' r2,
+    Codec.load_model Codec.KSeekable ([x4e; x2e] ++ ex_b ++ [x4b]) 2 = Codec.LOk r /\
+    List.length (Codec.l_ops r) = 8 /\ Codec.dumps (Codec.l_ops r) = Ok ex_b /\
+    Codec.load_model Codec.KBytes ex_b 0 = Codec.LOk r' /\ Codec.l_end r' = 16 /\
+    map strip (Codec.l_ops r') = map strip (Codec.l_ops r) /\ Codec.l_ops r' <> Codec.l_ops r /\
+    Codec.load_model Codec.KNonSeekable ([x4e; x2e] ++ ex_b ++ [x4b]) 2 = Codec.LOk r2.
+Proof.
+  eexists. eexists. eexists. split; [vm_compute; reflexivity|]. split; [reflexivity|].
+  split; [vm_compute; reflexivity|]. split; [vm_compute; reflexivity|]. split; [reflexivity|].
+  split; [vm_compute; reflexivity|]. split; [vm_compute; discriminate|]. vm_compute. reflexivity.
 Qed.
 
 (* Hash seed.  The iteration order of the Python set `defined - used` in
@@ -171,7 +190,7 @@ Qed.
 Print Assumptions C13_queries_idempotent.
 Print Assumptions C13_fresh_object.
 Print Assumptions C13_order_irrelevant.
-Print Assumptions C13_reparse_same_partial.
+Print Assumptions C13_reparse_same.
 Print Assumptions C13_hashseed_independent.
 Print Assumptions C13_safety_is_analyze.
 Print Assumptions C13_refuted_unrepaired_properties_cache.
